@@ -169,10 +169,14 @@ def run (j : Json) : Except String Json := do
   let holds := checkC11 c.env c.heap c.target root c.steps vs missing implObs
   let modelHolds := checkC11 c.env c.heap c.target root c.steps vs missing modelObs
   let star := hasStar c.steps
+  let cov := covered c.env c.heap c.target c.sroot c.steps vs missing
+  let covStar := star && WF c.env && classesOK c.env && noScope c.env && wfStar c.steps && valWf vs &&
+    !valUnsupported c.heap vs && (match missing with | .none => true | _ => out.1.calls == 0)
   let branch := (if c.sroot then "S:" else "") ++ (if star then "star:" else "") ++
-    (if out.1.calls > 0 then s!"missing{out.1.calls}:" else "") ++ resTag modelObs.res
+    (if out.1.calls > 0 then s!"missing{out.1.calls}:" else "") ++ resTag modelObs.res ++
+    (if cov then " [thm]" else if covStar then " [thm*]" else "")
   return Json.mkObj [("agree", agree), ("holds", holds), ("model_holds", modelHolds),
-    ("wf", WF c.env), ("model", obsToJson canon),
+    ("wf", WF c.env), ("covered", cov || covStar), ("model", obsToJson canon),
     ("ref", match ref with
       | .ok _ hid n => s!"ok hidden={hid} calls={n}" | .fail a => s!"fail atomic={a}" | .unsupported => "unsupported"),
     ("branch", branch)]
